@@ -485,7 +485,7 @@ def tr(e, env):
                 return "(NanBox.Ref.error %s)" % tr(a, env)
             if f == "f64::from_bits":
                 return tr(a, env)
-            if f == "Tag::from_val":
+            if f == FROM_VAL:
                 return "(tagFromVal %s)" % tr(a, env)
             if f == "ErrorCode::from_repr":
                 return ("fromrepr", tr(a, env))
@@ -506,7 +506,7 @@ def tr(e, env):
             return "(%s - %s)" % (tr(recv, env), tr(args[0], env))      # natural subtraction is saturating
         if name == "is_multiple_of" and len(args) == 1:
             return "(%s %% %s = 0)" % (tr(recv, env), tr(args[0], env))
-        if name in ("to_bits", "as_val") and not args:
+        if name in ("to_bits", AS_VAL) and not args:
             return tr(recv, env)
         if name == "as_ptr" and not args and recv == ("field", ("id", "self"), "buffer"):
             return "(some 0 : Option Nat)"
@@ -660,6 +660,8 @@ def parse_body(body_text):
 
 # names the extractor found in the source (the helper that swaps in a new state and pushes the old
 # one; the parameter that is the parent stack) — set per method by extract.py
+AS_VAL = "as_val"
+FROM_VAL = "Tag::from_val"
 SWAP_FN = "swap_and_push"
 STACK_PARAM = "parent_state_stack"
 
